@@ -113,6 +113,23 @@ def one_graph(args):
             eff_edges.discard(ignored[:2])
             ents = [e for e in ents if not (e['path'] == ignored[2] + '/f' or e['path'].startswith(ignored[2] + '/'))]
             ents.append({'tag': 'IGNORE', 'path': ignored[2], 'size': 0, 'ck': {}})
+        # a symlink to a regular FILE on the second file system, listed or not: in one-file-system mode it is
+        # a file on a different device (verification and update; the Manifest scan does not look at files).
+        # Modelled as one more foreign leaf node below the directory holding the link.
+        flink = None
+        if shm and rng.random() < 0.3:
+            a = rng.choice(ids)
+            with open(os.path.join(shm, 'ff.txt'), 'wb') as f:
+                f.write(b'foreign file')
+            lp = os.path.join(real[a], 'ffl')
+            if not os.path.lexists(lp):
+                os.symlink(os.path.join(shm, 'ff.txt'), lp)
+                rel = (path[a] + '/' if path[a] else '') + 'ffl'
+                listed = rng.random() < 0.5
+                under_ignored = ignored is not None and (rel == ignored[2] or rel.startswith(ignored[2] + '/'))
+                if listed and not under_ignored:
+                    ents.append(fm.make_entry('DATA', rel, b'foreign file', ['SHA1']))
+                flink = (a, max(alld) + 1, listed)
         # IGNORE on everything that lies BEYOND a link leading back to an ancestor (path(a)/link/<child>): the
         # link itself is not under an IGNOREd path, so the loop has to be reported all the same - also
         # when the ancestor is the top directory
@@ -137,13 +154,18 @@ def one_graph(args):
         with open(os.path.join(root, 'Manifest'), 'wb') as f:
             f.write(fm.manifest_bytes(ents))
         base = {'dirs': alld, 'edges': [list(e) for e in sorted(eff_edges)], 'start': 1, 'foreign': foreign,
-                'meta': {'seed': seed, 'idx': idx, 'links': links, 'ignored': ignored, 'beyond': beyond, 'paths': path}}
+                'meta': {'seed': seed, 'idx': idx, 'links': links, 'ignored': ignored, 'beyond': beyond, 'flink': flink, 'paths': path}}
         old = signal.signal(signal.SIGALRM, _alarm)
         try:
             for op in ('verify', 'update', 'scan'):
-                for onefs in ((False, True) if foreign else (False,)):
+                for onefs in ((False, True) if (foreign or flink) else (False,)):
                     obs, exc = run_op(gem, root, op, onefs)
-                    recs.append(dict(base, op=op, onefs=onefs, obs=obs, exc=exc))
+                    rec = dict(base, op=op, onefs=onefs, obs=obs, exc=exc)
+                    if flink and op in ('verify', 'update'):
+                        rec['dirs'] = base['dirs'] + [flink[1]]
+                        rec['edges'] = base['edges'] + [[flink[0], flink[1]]]
+                        rec['foreign'] = base['foreign'] + [flink[1]]
+                    recs.append(rec)
         finally:
             signal.alarm(0)
             signal.signal(signal.SIGALRM, old)
